@@ -21,7 +21,7 @@ def local_guards(node: ast.AST, within: ast.AST) -> set[str]:
     inner = {id(x) for x in ast.walk(within)}
     out = set()
     for test, pol in guards_of(node):
-        if id(test) in inner:
+        if id(getattr(test, "_orig", test)) in inner:
             for a, p in conj_atoms(test, pol):
                 out.add(canon_atom(a, p))
     return out
